@@ -173,6 +173,44 @@ theorem rows_bit (row : Mem → Int → Mem) (stride : Int) (val : Int → Bool)
       intro hs
       exact hn ⟨0, by omega, by rw [e0]; exact hs⟩
 
+/-- the same with an invariant `P` of the row pointer (e.g. pixel alignment) -/
+theorem rows_bit_inv (row : Mem → Int → Mem) (stride : Int) (val : Int → Bool) (S : Int → Int → Prop)
+    (P : Int → Prop) (hP : ∀ d, P d → P (d + stride))
+    (hin : ∀ m d i, P d → S d i → (row m d).bit i = val i)
+    (hout : ∀ m d i, P d → ¬ S d i → (row m d).bit i = m.bit i) (i : Int) :
+    ∀ (h : Nat) (m : Mem) (d : Int), P d →
+      ((∃ r : Nat, r < h ∧ S (d + r * stride) i) → (rows row stride h m d).bit i = val i) ∧
+      ((¬ ∃ r : Nat, r < h ∧ S (d + r * stride) i) → (rows row stride h m d).bit i = m.bit i) := by
+  intro h
+  induction h with
+  | zero =>
+    intro m d _
+    refine ⟨fun ⟨r, hr, _⟩ => absurd hr (by omega), fun _ => rfl⟩
+  | succ h ih =>
+    intro m d hd
+    have e : ∀ r : Nat, d + ((r + 1 : Nat) : Int) * stride = d + stride + r * stride := by
+      intro r; grind
+    have e0 : d + ((0 : Nat) : Int) * stride = d := by simp
+    obtain ⟨ih1, ih2⟩ := ih (row m d) (d + stride) (hP d hd)
+    constructor
+    · rintro ⟨r, hr, hs⟩
+      show (rows row stride h (row m d) (d + stride)).bit i = val i
+      by_cases hq : ∃ r : Nat, r < h ∧ S (d + stride + r * stride) i
+      · exact ih1 hq
+      · rw [ih2 hq]
+        cases r with
+        | zero => rw [e0] at hs; exact hin m d i hd hs
+        | succ r' => rw [e r'] at hs; exact absurd ⟨r', by omega, hs⟩ hq
+    · intro hn
+      show (rows row stride h (row m d) (d + stride)).bit i = m.bit i
+      have hq : ¬ ∃ r : Nat, r < h ∧ S (d + stride + r * stride) i := by
+        rintro ⟨r, hr, hs⟩
+        exact hn ⟨r + 1, by omega, by rw [e r]; exact hs⟩
+      rw [ih2 hq]
+      apply hout _ _ _ hd
+      intro hs
+      exact hn ⟨0, by omega, by rw [e0]; exact hs⟩
+
 /-! ### sub-word stores -/
 
 theorem fieldMask_testBit (n s j : Nat) (hj : j < 32) :
